@@ -6,14 +6,18 @@ CHECKS = {
     "C10": {
         "level": "exploration",
         "rule": ("each run = one seeded plan (capacity 1-4, 1-4 producers, 1-4 consumers, blocking/timed/try operations, close at a drawn instant) "
-                 "executed under one seeded schedule (sticky/random/PCT/round-robin, optional stalls and spurious wake-ups); a run is non-trivial when it "
+                 "executed under one seeded schedule (sticky/random/PCT/round-robin, optional stalls and spurious wake-ups); ring-buffer runs = one producer and one consumer moving 20-420 items through capacity 1-8 with single/move/batch/peek operations and a quiesced resize, with a scheduling point before every atomic operation in the TSan flavour; a run is non-trivial when it "
                  "context-switched at least once; distinct = distinct (harness, interleaving hash over (from-thread,to-thread,sync-point kind) sequence, abstract state hash)"),
-        "real": ["iora::core::BlockingQueue (unmodified header)", "libstdc++ std::mutex/condition_variable/thread"],
+        "real": ["iora::core::BlockingQueue, RingBuffer<T,2/4/8>, DynamicRingBuffer (unmodified headers)", "libstdc++ std::mutex/condition_variable/thread/atomic",
+                 "ThreadSanitizer's happens-before analysis (tsan jobs): simulator hand-offs are invisible to it, simulated locks are annotated, so reports reflect the program's own synchronisation"],
         "stub": COMMON_STUB,
         "assumptions": ["scheduling points exist only at intercepted synchronisation calls (plus atomics in the race flavour)",
                         "pthread mutex/condvar semantics as modelled in simrt/core.cpp"],
         "jobs": [
-            {"harness": "c10_bq", "flavour": "asan", "runs": {"quick": 4000, "thorough": 200000}, "wall": {"quick": 45, "thorough": 900}},
+            {"harness": "c10_bq", "flavour": "asan", "runs": {"quick": 6000, "thorough": 400000}, "wall": {"quick": 20, "thorough": 600}, "seed_off": 1},
+            {"harness": "c10_bq", "flavour": "tsan", "runs": {"quick": 3000, "thorough": 200000}, "wall": {"quick": 15, "thorough": 600}, "seed_off": 2},
+            {"harness": "c10_ring", "flavour": "tsan", "runs": {"quick": 6000, "thorough": 600000}, "wall": {"quick": 20, "thorough": 900}, "seed_off": 3},
+            {"harness": "c10_ring", "flavour": "asan", "runs": {"quick": 6000, "thorough": 300000}, "wall": {"quick": 10, "thorough": 300}, "seed_off": 4},
         ],
     },
     "C09": {
@@ -112,7 +116,7 @@ CHECKS = {
         "rule": ("each run = 2-6 application threads looping over connect, connectSync, receiveSync, setReadMode, send, sendSync, close, addListener, getStats, observe/unobserve, "
                  "address queries against live peers, while one terminating scenario plays out at a drawn time: stop() from a plain thread; stop() and other blocking calls attempted "
                  "inside an I/O-thread callback; the only owner dropped by a plain thread while non-owning callers are parked in receiveSync/connectSync; the sole owner released "
-                 "inside a callback (deferred self-destruction); 2-3 start/stop cycles; TCP and UDP engines; ASan/UBSan in every run; non-trivial = at least one context switch; "
+                 "inside a callback (deferred self-destruction); 2-3 start/stop cycles; TCP and UDP engines; ASan/UBSan in the asan jobs, ThreadSanitizer happens-before analysis (simulated locks annotated, simulator hand-offs invisible) in the tsan jobs; non-trivial = at least one context switch; "
                  "distinct = distinct (mode, interleaving hash, abstract state hash)"),
         "real": ["iora::network::Transport + Transport::Impl (teardown handshake, deferred self-destruction)", "TcpEngine / UdpEngine", "EventBatchProcessor", "TimerService"],
         "stub": COMMON_STUB + ["kernel sockets, epoll, eventfd, timerfd (simrt/net.cpp)", "remote peers (scripted)"],
@@ -122,6 +126,8 @@ CHECKS = {
         "jobs": [
             {"harness": "c05_teardown", "mode": "tcp", "flavour": "asan", "runs": {"quick": 7000, "thorough": 800000}, "wall": {"quick": 35, "thorough": 1500}, "seed_off": 1},
             {"harness": "c05_teardown", "mode": "udp", "flavour": "asan", "runs": {"quick": 4000, "thorough": 400000}, "wall": {"quick": 20, "thorough": 900}, "seed_off": 2},
+            {"harness": "c05_teardown", "mode": "tcp", "flavour": "tsan", "runs": {"quick": 2500, "thorough": 300000}, "wall": {"quick": 25, "thorough": 1200}, "seed_off": 3},
+            {"harness": "c05_teardown", "mode": "udp", "flavour": "tsan", "runs": {"quick": 1500, "thorough": 150000}, "wall": {"quick": 15, "thorough": 600}, "seed_off": 4},
         ],
     },
 }
